@@ -205,6 +205,13 @@ func onlyNetFaults(m map[string]int) bool {
 // lastSeqOfLineage: sequence number of the last store operation performed by
 // the goroutine lineage that made call u (background work is finished then).
 func (r *Run) lastSeqOfLineage(u *UpCall) uint64 {
+	if u.Fg {
+		// a foreground call's work ends when its exchange returns
+		if e := r.exchFor(u.Owner, u.OwnerOp); e != nil && e.SeqRet != 0 {
+			return e.SeqRet
+		}
+		return ^uint64(0)
+	}
 	last := u.SeqEnd
 	for _, s := range r.Store {
 		if strings.HasPrefix(s.Gor, u.Gor) && s.SeqRet > last {
